@@ -23,7 +23,10 @@ use graphql_lang_types::{
 };
 use prelude::Postfix;
 
-use super::{description::parse_optional_description, peekable_lexer::PeekableLexer};
+use super::{
+    description::{clean_block_string_literal, parse_optional_description},
+    peekable_lexer::PeekableLexer,
+};
 
 pub fn parse_schema(
     source: &str,
@@ -693,6 +696,21 @@ fn parse_constant_value(
 
         to_control_flow(|| {
             tokens
+                .parse_source_of_kind(TokenKind::BlockStringLiteral)
+                .map(|block_string| {
+                    block_string.map(|source| {
+                        // String values are kept as they are written between quotes
+                        GraphQLConstantValue::String(
+                            escape_string_value(&clean_block_string_literal(source))
+                                .intern()
+                                .into(),
+                        )
+                    })
+                })
+        })?;
+
+        to_control_flow(|| {
+            tokens
                 .parse_matching_identifier("true")
                 .map(|x| x.map(|_| GraphQLConstantValue::Boolean(true)))
         })?;
@@ -747,6 +765,23 @@ fn parse_constant_value(
             tokens.peek().location.to::<Location>().wrap_some(),
         ))
     })
+}
+
+/// The characters between the quotes of a StringValue that has the given value
+fn escape_string_value(value: &str) -> String {
+    let mut output = String::with_capacity(value.len());
+    for c in value.chars() {
+        match c {
+            '"' => output.push_str("\\\""),
+            '\\' => output.push_str("\\\\"),
+            '\n' => output.push_str("\\n"),
+            '\r' => output.push_str("\\r"),
+            '\t' => output.push_str("\\t"),
+            c if (c as u32) < 0x20 => output.push_str(&format!("\\u{:04x}", c as u32)),
+            c => output.push(c),
+        }
+    }
+    output
 }
 
 fn to_control_flow<T, E>(result: impl FnOnce() -> Result<T, E>) -> ControlFlow<T, E> {
